@@ -6,6 +6,7 @@ cd /verif
 seeds=${@:-$(ls seeded)}
 for s in $seeds; do
   prop=$(python3 -c "import json;print(json.load(open('seeded/$s/meta.json'))['property'])")
+  if python3 -c "import json,sys;sys.exit(0 if json.load(open('seeded/$s/meta.json')).get('obsolete') else 1)"; then echo "$s ($prop): obsolete (see meta.json)"; continue; fi
   if ! git -C /repo apply --check /verif/seeded/$s/patch.diff 2>/dev/null; then echo "$s ($prop): PATCH-DOES-NOT-APPLY"; continue; fi
   git -C /repo apply /verif/seeded/$s/patch.diff
   out=$(./check $prop --tier quick 2>&1); rc=$?
